@@ -89,7 +89,9 @@ Definition step (s : st) (l : label) : option st :=
       | _ => None
       end
   | Fire =>
-      if not_entered (p s) || (now s <? deadline s) || evt s || completed s then None else
+      (* the action may also run after the call completed: a cancel issued once the clock has reached the rounded
+         deadline does not stop an action the timer queue has already spawned (C10) *)
+      if not_entered (p s) || (now s <? deadline s) || evt s then None else
       (* evt.Set(True) first (spawns the notifier greenlet that will run the subscribed timeout_proc),
          then TimeoutError is posted *)
       Some {| now := now s; deadline := deadline s; p := p s; evt := true; handed := handed s; completed := completed s;
